@@ -150,13 +150,13 @@ let run (path : string) =
         if cls <> "ok" then mismatch ~case:!case ~step:!step ~field:"tick.result" ~model:"ok" ~impl:cls;
         L.iter (fun m -> m.au <- tick !cf m.lk (z now) (zopt ac pc) (zopt ad pd) m.au) !live;
         last_bid := None; last_tick := true
-      | "op" :: "bid" :: aid :: who :: amt :: wrong :: twa :: cls :: _ ->
-        incr step; incr steps; bump "op:bid"; bump ("bid:" ^ cls);
+      | "op" :: "bid" :: aid :: who :: amt :: wrong :: twa :: dact :: cls :: _ ->
+        incr step; incr steps; bump "op:bid"; bump ("bid:" ^ cls); bump ("bid:debt_price_active=" ^ dact);
         Buffer.add_string sig_ (";B" ^ aid ^ ":" ^ who ^ ":" ^ amt ^ wrong);
         (match L.find_opt (fun m -> m.aid = aid) !live with
          | None -> if cls <> "err" then mismatch ~case:!case ~step:!step ~field:"bid.result" ~model:"err(no auction)" ~impl:cls
          | Some m ->
-           (match place_bid !cf m.lk m.au !st (z who) (z amt) (bool_of_tok wrong) (z twa) with
+           (match place_bid !cf m.lk m.au !st (z who) (z amt) (bool_of_tok wrong) (bool_of_tok dact) (z twa) with
             | Base.Ok ((s', a'), r) ->
               if cls <> "ok" then mismatch ~case:!case ~step:!step ~field:"bid.result" ~model:"ok" ~impl:cls
               else begin
